@@ -95,7 +95,38 @@ package transmit
 //@   ensures[every-event-of-the-batch-has-its-outcome] downN(m, k) == old(downN(m, k)) + len(batch)
 //@   loop 1 invariant[one-per-event-so-far] downN(m, k) == old(downN(m, k)) + iter && toInt(d.Metrics) == toInt(m) && d.metricKeys.updownQueuedItems == k
 //@   modifies all(downN)
-//@ assume transmit.(*batchedEvent).MarshalMsg
+// ---- C22 / C04 (last mile): what goes on the wire for an event is its own timestamp, handed to the msgpack
+// timestamp encoder exactly as it is (no rounding, no re-reading of the clock), and its own sample rate.
+//@ ghost timeExtN() int
+//@ ghost timeExtLast() time
+//@ ghost rateN() int
+//@ ghost rateLast() int
+//@ package github.com/tinylib/msgp/msgp
+//@ assume github.com/tinylib/msgp/msgp.AppendTimeExt
+//@   ghostupdate[encoded-time@C22] timeExtN(), timeExtLast() :: timeExtN() == old(timeExtN()) + 1 && timeExtLast() == t
+//@ assume github.com/tinylib/msgp/msgp.AppendInt64
+//@   ghostupdate[encoded-rate@C22,C04] rateN(), rateLast() :: rateN() == old(rateN()) + 1 && rateLast() == i
+//@ assume github.com/tinylib/msgp/msgp.WrapError
+//@ package types
+//@ assume types.Payload.MarshalMsg
+//@ package transmit
+//@ contract transmit.(*batchedEvent).MarshalMsg props C22,C04
+//@   assert only none
+//@   requires z != nil
+//@   ensures[the-time-is-encoded-once-as-it-is@C22] timeExtN() == old(timeExtN()) + 1 && timeExtLast() == z.time
+//@   ensures[the-sample-rate-is-encoded-once-as-it-is] rateN() == old(rateN()) + 1 && rateLast() == z.sampleRate
+//@   modifies all(timeExtN), all(timeExtLast), all(rateN), all(rateLast)
+// one event of a batch being packed: it is encoded with its own time and its own rate
+//@ fragment transmit.(*DirectTransmission).sendBatch loop 2 body props C22,C04 havoc noinv
+//@   arith math
+//@   assert only none
+//@   requires d != nil && 0 <= i && i < len(wholeBatch) && wholeBatch[i] != nil
+//@   let ev = wholeBatch[i]
+// a sample rate is a count of events represented; it is converted to the wire's signed 64-bit integer
+//@   domain[rate-fits-the-wire-type] toInt(wholeBatch[i].SampleRate) <= 9223372036854775807
+//@   ensures[each-event-is-encoded-with-its-own-time@C22] timeExtN() == old(timeExtN()) + 1 && timeExtLast() == old(ev.Timestamp)
+//@   ensures[each-event-is-encoded-with-its-own-rate] rateN() == old(rateN()) + 1 && rateLast() == toInt(old(ev.SampleRate))
+//@   modifies all(timeExtN), all(timeExtLast), all(rateN), all(rateLast), all(downN)
 //@ assume transmit.buildRequestURL
 //@ assume transmit.httpError.Timeout
 //@ fragment transmit.(*DirectTransmission).sendBatch loop 1 body props C26 havoc noinv
@@ -139,3 +170,29 @@ package transmit
 //@   loop 5 invariant[answered-so-far-have-their-outcome] len(wholeBatch) <= n && downN(m, k) == d0 + n - len(wholeBatch) - len(subBatch) + iter && toInt(d.Metrics) == toInt(m) && d.metricKeys.updownQueuedItems == k && d.httpClient != nil
 //@   loop 6 invariant[failed-so-far-have-their-outcome] len(wholeBatch) <= n && downN(m, k) == d0 + n - len(wholeBatch) - len(subBatch) + iter && toInt(d.Metrics) == toInt(m) && d.metricKeys.updownQueuedItems == k && d.httpClient != nil
 //@   modifies all(downN), all(bodyClosed), all(doN)
+
+// ---- C26: a pending batch leaves within 1.25 x BatchTimeout of its first event. Three pieces: the dispatcher scans
+// the table every quarter of the timeout (the ticker it creates has exactly that period), one scan hands every batch
+// that holds events and is at least BatchTimeout old to the sending pool and leaves the others alone, and the
+// arithmetic that turns "scanned every T/4, sent at the first scan at which it is T old" into "sent before 1.25 T".
+//@ ghost tickerPeriod(ref) int
+//@ final transmit.DirectTransmission.batchTimeout
+//@ contract transmit.(*DirectTransmission).dispatchStaleBatches props C26 havocheap noinv
+//@   arith math
+//@   assert only none
+//@   requires d != nil
+//@   loop 1 invariant[the-table-is-scanned-every-quarter-of-the-timeout] tickerPeriod(batchTicker) == toInt(d.batchTimeout) / 4
+//@   modifies all(goN)
+//@ fragment transmit.(*DirectTransmission).dispatchStaleBatches loop 3 body props C26 noinv
+//@   arith math
+//@   assert only none
+//@   requires d != nil && d.dispatchPool != nil
+//@   requires[batches-present] forall k transmitKey :: in(d.eventBatches, k) ==> d.eventBatches[k] != nil
+//@   let p = d.dispatchPool
+//@   let here = in(d.eventBatches, key)
+//@   let b = d.eventBatches[key]
+//@   let stale = here && len(b.events) > 0 && dispatchStart.Sub(b.startTime) >= d.batchTimeout
+//@   ensures[a-batch-that-is-old-enough-is-sent] stale ==> goN(p) == old(goN(p)) + 1 && len(b.events) == 0
+//@   ensures[any-other-batch-is-left-alone] !stale ==> goN(p) == old(goN(p)) && (here ==> b.events == old(b.events))
+//@   modifies field(eventBatch, events), all(goN)
+//@ lemma C26.scanned-every-quarter-means-sent-before-five-quarters props C26 : forall first int, t0 int, T int, k int :: T >= 4 && k >= 1 && (t0 + (k - 1) * (T / 4)) - first < T ==> (t0 + k * (T / 4)) - first < T + T / 4
